@@ -33,6 +33,7 @@ KIND_RULES = {
     "K-ARG": "arguments of resolved calls have the parameter's declared kind (edge id is not a weight, composite key is not a node tuple ...)",
     "K-SIZE": "comparisons between hyperedge size expressions and order/size filters are unit-consistent (len(e)-1 vs order, len(e) vs size)",
     "K-LEN": "len() is never applied to a composite (time, nodes) / (nodes, layer) key",
+    "K-POS": "lists are indexed by positions, never by edge ids (ids are positions only until the first removal)",
     "K-MEM": "membership tests / set updates use elements of the container's element kind",
     "C-SIG": "every resolved call binds against the callee's signature",
     "K-KEY-LOCAL": "local dicts are subscripted with keys of their inferred key kind",
@@ -43,6 +44,7 @@ PATH_RULES = {
     "P-ID": "new ids come from the monotone counter, which is advanced by a positive constant on the same path",
     "P-ADJ1": "incidence entries are appended only on the fresh path, in a loop over the key's nodes, with the edge id",
     "P-ACCUM": "weights of existing records are only changed by `+= weight` under the weighted flag",
+    "P-IDMONO": "outside constructors / loaders / clear the edge-id counter is only ever advanced (an id is never handed out twice while its first holder is alive)",
     "P-EMETA": "the metadata argument of add_edge reaches _edge_metadata on the path where the hyperedge already exists as well (re-insertion replaces the metadata)",
     "P-DEL": "deleting a record deletes it from every id-keyed table and from the incidence lists of its nodes on every path",
     "P-DELJOINT": "a method that deletes a record from an id-keyed table itself (not through remove_edge) deletes it from every id-keyed table, the key table and the incidence lists on that path",
@@ -133,6 +135,8 @@ def run_container(ctx, prop: str, cls: str) -> Result:
         RC.check_merge_key(ctx, res, cls)
     with res.guard("RC.check_record_deletion_joint(ctx, res, cls)"):
         RC.check_record_deletion_joint(ctx, res, cls)
+    with res.guard("RC.check_id_monotone(ctx, res, cls)"):
+        RC.check_id_monotone(ctx, res, cls)
     with res.guard("RC.check_batch_insert(ctx, res, cls)"):
         RC.check_batch_insert(ctx, res, cls)
     with res.guard("RC.check_isolation(ctx, res, cls)"):
@@ -164,6 +168,12 @@ def run_container(ctx, prop: str, cls: str) -> Result:
     if "copy" in ctx.methods(cls):
         with res.guard("check_deepcopyctx, res, fcls.copy"):
             check_deepcopy(ctx, res, f"{cls}.copy")
+    # ---- mutators: an explicitly supplied empty metadata dict / zero weight / time 0 is a value, not "omitted"
+    # (the batch methods take a LIST / DICT of per-item metadata: an empty one carries nothing, its truthiness is harmless)
+    for name in ("add_edge", "add_node", "set_edge_metadata", "set_node_metadata", "set_weight"):
+        if name in ctx.methods(cls):
+            with res.guard(f"M.check_none_tests({cls}.{name}, metadata / weight / time)"):
+                M.check_none_tests(ctx, res, f"{cls}.{name}", params=("metadata", "weight", "time"))
     # ---- filtered queries: comparison shapes, exclusion guard, None tests, forwarding
     for name in FILTER_METHODS:
         if name in ctx.methods(cls):
